@@ -977,7 +977,6 @@ func c16Referential(c *eng.Ctx) {
 	}
 }
 
-
 // ---- R7 (added after seeded change C16-2) -----------------------------------------------
 
 // c16AdmitsValidated: in the admission plugin's Validate every admitting return (nil, or the
@@ -1048,17 +1047,17 @@ func c16AdmitsValidated(c *eng.Ctx) {
 	}
 }
 
-
 // ---- R8: preconditions of the client library ----------------------------------------------
 
 // c16Preconditions: the data plane hands fields of the object to client-go, which refuses
 // some combinations; validation must refuse them first.
-//   P1  transport.TLSConfigFor fails when a CA is given together with the insecure flag (the
-//       guard is located in the dependency's own SSA, so the precondition is read from the
-//       code that enforces it); buildClusterRESTConfig copies ClientConfig.CAData and
-//       ClientConfig.Insecure into that configuration.
-//   P2  rest.DefaultServerURL / the dispatcher need a URL with a host: "https://" parses but
-//       has none.
+//
+//	P1  transport.TLSConfigFor fails when a CA is given together with the insecure flag (the
+//	    guard is located in the dependency's own SSA, so the precondition is read from the
+//	    code that enforces it); buildClusterRESTConfig copies ClientConfig.CAData and
+//	    ClientConfig.Insecure into that configuration.
+//	P2  rest.DefaultServerURL / the dispatcher need a URL with a host: "https://" parses but
+//	    has none.
 func c16Preconditions(c *eng.Ctx) {
 	c.Rule("R8", "preconditions of the client library are validated: caData together with insecure is rejected (client-go's TLSConfigFor refuses it), and an endpoint whose parsed URL has no host is rejected (client-go's server URL and the dispatcher need one)", 2)
 	// --- P1: locate the guard in the dependency
